@@ -299,6 +299,7 @@ def inline_crate(j):
     for f in j['fns']:
         if f['name'] in touched:
             stats['lowered'] = stats.get('lowered', 0) + cfgnorm.lower_branch(f) + cfgnorm.lower_fnptr_calls(f)
+            stats['direct_stores'] = stats.get('direct_stores', 0) + cfgnorm.direct_stores(f)
             for _ in range(4):
                 n = cfgnorm.thread_jumps(f, j.get('adts') or {})
                 stats['threaded'] += n
@@ -750,8 +751,17 @@ def _trace_closure(f, op, depth=0):
     if depth > 6 or op.get('o') not in ('copy', 'move'):
         return None
     pl = op['pl']
-    if any(p['k'] != 'deref' for p in pl['p']):
-        return None
+    nd = [p for p in pl['p'] if p['k'] != 'deref']
+    if nd:
+        # a capture read out of another closure's environment (`(*env).0` where env is a closure built here, e.g.
+        # the body of a lowered fold / for_each closure calling the closure it captured): the captured operand
+        if len(nd) != 1 or nd[0]['k'] != 'field':
+            return None
+        agg = _closure_agg(f, pl['l'])
+        ops = agg.get('ops', []) if agg else []
+        if agg is None or nd[0]['i'] >= len(ops):
+            return None
+        return _trace_closure(f, ops[nd[0]['i']], depth + 1)
     l = pl['l']
     defs = []
     for b in f['blocks']:
@@ -770,6 +780,30 @@ def _trace_closure(f, op, depth=0):
         return _trace_closure(f, rv['a'], depth + 1)
     if rv['r'] == 'ref':
         return _trace_closure(f, {'o': 'copy', 'pl': rv['pl']}, depth + 1)
+    return None
+
+
+def _closure_agg(f, l, depth=0):
+    """the closure aggregate rvalue local l denotes (single-definition moves and borrows followed)"""
+    if depth > 6:
+        return None
+    defs = []
+    for b in f['blocks']:
+        for st in b['stmts']:
+            if st['s'] == 'assign' and st['pl']['l'] == l and not st['pl']['p']:
+                defs.append(st['rv'])
+        t = b['term']
+        if t['t'] == 'call' and t['dest']['l'] == l and not t['dest']['p']:
+            defs.append(None)
+    if len(defs) != 1 or defs[0] is None:
+        return None
+    rv = defs[0]
+    if rv['r'] == 'agg' and rv['kind'].get('k') == 'closure':
+        return rv
+    if rv['r'] == 'use' and rv['a'].get('o') in ('copy', 'move') and all(p['k'] == 'deref' for p in rv['a']['pl']['p']):
+        return _closure_agg(f, rv['a']['pl']['l'], depth + 1)
+    if rv['r'] == 'ref' and all(p['k'] == 'deref' for p in rv['pl']['p']):
+        return _closure_agg(f, rv['pl']['l'], depth + 1)
     return None
 
 
